@@ -2,14 +2,27 @@
    DOCUMENTED tables (Conf/DocSpec.v).  Definitions only, and no dependency on
    any proof, so that the extracted oracle still builds when a table no longer
    matches the documentation (that is exactly when it is needed).
-   Conf/ConfInst.v proves that it decides conformance to the documented grammar. *)
-From Robsd Require Import Conf.ConfDefs Conf.DocSpec.
+   Conf/ConfInst.v proves that it decides conformance to the documented grammar.
+
+   Three table records:
+     [doc_tables m]           what the pages say and the property demands: documented rows and tokens, rdomain cycling
+                              through 11..255 without repetition, diagnostics that name the file.  THE ORACLE.
+     [doc_tables_with r p m]  the same with the two behaviour switches as parameters (r: body of config_default_rdomain,
+                              p: parse-time substitution diagnostics carry the path), so that statements about
+                              ACCEPTANCE do not depend on them (a return of D6 or D16 must alarm on its own clause)
+     [doc_tables_as_built m]  the documented rows WITH the exceptions of Conf/DocExceptions.v applied, the token table
+                              with [token_exceptions] applied, the switches as the source has them: what Conf/ConfDocIff.v
+                              proves the code to implement.
+   What no page describes and the configuration reader needs is taken over from the regenerated tables in all three:
+   the step tables and argv template (the schedule, C10), the depth limit (C09), the default of the undocumented
+   exec-dir, the re-entry guard of config_default_build_dir (C12). *)
+From Robsd Require Import Conf.ConfDefs Conf.DocSpec Conf.DocExceptions.
 From RobsdGen Require Import Gen_Conf.
 From Coq Require Import String.
 Local Open Scope string_scope.
 
-(* the words of the documented syntax: "yes | no", the time-out units "s, m or
-   h", the regress options, the step options, the list braces *)
+(* the words of the documented syntax: "yes | no" (every page), the list braces, the regress options and the
+   time-out units "s, m or h" (robsd-regress.conf.5:103-141), the step options (canvas.conf.5:33-37) *)
 Definition doc_tokens : list tokrow := Eval vm_compute in [
   mk_tokrow T_LBRACE (bs "{") None;
   mk_tokrow T_RBRACE (bs "}") None;
@@ -24,14 +37,29 @@ Definition doc_tokens : list tokrow := Eval vm_compute in [
   mk_tokrow T_PARALLEL (bs "parallel") (Some CANVAS);
   mk_tokrow T_QUIET (bs "quiet") (Some ROBSD_REGRESS);
   mk_tokrow T_ROOT (bs "root") (Some ROBSD_REGRESS);
-  mk_tokrow T_SECONDS (bs "s") None;
+  mk_tokrow T_SECONDS (bs "s") (Some ROBSD_REGRESS);
   mk_tokrow T_TARGETS (bs "targets") (Some ROBSD_REGRESS);
   mk_tokrow T_YES (bs "yes") None ].
 
-Definition doc_tables (m : mode) : tables :=
+(* the token table with [token_exceptions] applied: the mode column of the listed types replaced *)
+Definition tokens_as_built : list tokrow := Eval vm_compute in
+  map (fun r => match find (fun e => ttype_eqb (fst e) (tr_type r)) token_exceptions with
+                | Some (_, mo) => mk_tokrow (tr_type r) (tr_key r) mo
+                | None => r
+                end) doc_tokens.
+
+Definition doc_tables_with (rfix ipath : bool) (m : mode) : tables :=
   let G := tables_of m in
   mk_tables m doc_tokens (doc_table m) (t_steps G) (t_argv G) (t_regress_script G) (t_canvas_end G)
-            doc_rdomain_first (doc_rdomain_last + 1) true (t_execdir_default G) (t_depth_limit G) true (t_builddir_guard G).
+            doc_rdomain_first (doc_rdomain_last + 1) rfix (t_execdir_default G) (t_depth_limit G) ipath (t_builddir_guard G).
+
+Definition doc_tables (m : mode) : tables := doc_tables_with true true m.
+
+Definition doc_tables_as_built (m : mode) : tables :=
+  let G := tables_of m in
+  mk_tables m tokens_as_built (as_built_table m) (t_steps G) (t_argv G) (t_regress_script G) (t_canvas_end G)
+            doc_rdomain_first (doc_rdomain_last + 1) (t_rdomain_fixed G) (t_execdir_default G) (t_depth_limit G)
+            (t_interp_path G) (t_builddir_guard G).
 
 (* robsd-config run on the documented tables *)
 Definition spec_config (E : env) (m : mode) (text : bytes) (vars : list bytes) (stdin : bytes) : cmdres :=
@@ -39,4 +67,3 @@ Definition spec_config (E : env) (m : mode) (text : bytes) (vars : list bytes) (
 
 Definition spec_accepts (E : env) (m : mode) (text : bytes) : bool :=
   match config_parse E (doc_tables m) text with Accepted _ => true | Rejected _ => false end.
-
